@@ -217,7 +217,7 @@ class TimeShiftMonitor:
 
 # ------------------------------------------------------------------------------------------------
 NS_QUICK = [1, 2, 3, 5, 16, 17, 101, 256, 1009, 4096]
-SSHAPES = [(), (3,), (4, 2), (2, 1, 3)]
+SSHAPES = [(), (3,), (4, 2), (2, 1, 3), (2, 2), (3, 3, 1)]
 SHIFT_KINDS = ["int", "frac", "quantity", "long", "mixed", "zeros_among", "half"]
 SHAPE_KINDS = ["scalar", "full", "lower", "len1_first", "len1_last", "len1_all"]
 
@@ -267,7 +267,7 @@ def wl_shift(ctx, idx, rng):
     big = ctx.tier == "thorough"
     Ns = NS_QUICK + ([7, 64, 1000, 16384, 65536] if big else [])
     N = Ns[idx % len(Ns)]
-    sshape = SSHAPES[(idx // len(Ns)) % 4]
+    sshape = SSHAPES[(idx // len(Ns)) % 4] if rng.random() < 0.8 else SSHAPES[4 + int(rng.integers(2))]
     kind = SHIFT_KINDS[(idx // (len(Ns) * 4)) % len(SHIFT_KINDS)]
     shape_kind = SHAPE_KINDS[int(rng.integers(len(SHAPE_KINDS)))]
     dtype = gen.pick(rng, [np.float32, np.float64, np.complex64, np.complex128])
@@ -307,6 +307,21 @@ def wl_shift(ctx, idx, rng):
         out2, exc2 = ctx.call("time_shift", pb.time_shift, sig, sq, crop=not crop)
         if exc2 is None and out is not sig and out2 is not sig:
             ctx.bucket(("N", N if N < 300 else "big"), nd.name, len(sshape), kind, shape_kind, "dask" if use_dask else "np")
+    if exc is None and use_dask:
+        # several lazy results of the same length evaluated in one graph: another shift on the same signal, the same shift on other data
+        s2 = make_shift(rng, N, sshape, kind if kind != "quantity" else "frac", shape_kind)
+        o3, e3 = ctx.call("time_shift", pb.time_shift, sig, s2, crop=crop)
+        sig_b, _ = gen.make_signal(rng, clsname, N, data=gen.rand_data(rng, (N,) + sshape, dtype), rate=rate, dask=True)
+        o4, e4 = ctx.call("time_shift", pb.time_shift, sig_b, sq, crop=crop)
+        monitors.joint_compute_check(ctx, "time_shift", [r for r, e in ((out, exc), (o3, e3), (o4, e4)) if e is None and isinstance(r, pb.Signal)],
+                                     {"cls": clsname, "dask": True}, "time_shift results of equal length")
+    if exc is None and len(sshape) >= 2 and rng.random() < 0.5:
+        # call history: the same numbers given in another orientation right after (anything remembered from the previous call must not leak)
+        v = np.atleast_1d(np.asarray(s, dtype=float)).ravel()
+        for shp in {(v.size,), (1, v.size), (v.size, 1)}:
+            if len(shp) <= len(sshape) and all(a in (1, b) for a, b in zip(shp, sshape)) and shp != np.shape(s):
+                ctx.call("time_shift", pb.time_shift, sig, v.reshape(shp), crop=crop)
+                ctx.count("history[reoriented_shift]")
     # shift with too many dimensions must raise ValueError
     if rng.random() < 0.1:
         bad = np.ones((1,) * (len(sshape) + 1))
